@@ -21,6 +21,9 @@ from pathlib import Path
 from mon import core
 
 MAX_REPLAYS = 12
+# validation tools (tools/try_seed.py, tools/mutation_sweep.py) run the checks against a deliberately broken tree; they set
+# VERIF_OUT so that the evidence and replays of those runs never replace the ones of the unchanged tree
+OUT_ROOT = Path(os.environ["VERIF_OUT"]) if os.environ.get("VERIF_OUT") else core.ROOT
 
 
 def _parse(argv: list[str]) -> argparse.Namespace:
@@ -182,7 +185,7 @@ def main(argv: list[str] | None = None) -> int:
     # ---- replay files ------------------------------------------------------
     replay_paths = []
     if new_viol:
-        rdir = core.ROOT / "replays" / prop
+        rdir = OUT_ROOT / "replays" / prop
         rdir.mkdir(parents=True, exist_ok=True)
         seen_keys = set()
         for r, v in new_viol:
@@ -223,7 +226,7 @@ def main(argv: list[str] | None = None) -> int:
         "wall_s": round(time.time() - t0, 2),
         "violations": len(new_viol),
     }
-    edir = core.ROOT / "evidence"
+    edir = OUT_ROOT / "evidence"
     edir.mkdir(exist_ok=True)
     (edir / f"{prop}.json").write_text(json.dumps(evidence, indent=1, default=str) + "\n")
 
